@@ -52,12 +52,14 @@ CSpecs1 == {Sp(<<n>>, "one", "", u) : n \in Names, u \in VU}
 CSmall  == {s \in CSpecs1 : s.u = ""}
 Iota(n) == Sp(<<n>>, "iota", "", "")
 
+\* "init" as a METHOD name is an ordinary name: only the package-level function init is special
+MethNames == {"M", "N", "init"}
 ClassNames == <<"func", "meth", "lnk", "type1", "type2", "var1", "var2", "var3", "const1", "const2", "iota">>
 
 OClass(c) ==
   CASE c = "func"  -> {d \in {Dc("func", "", n, "", "", u, su, g, <<>>) : n \in Names, u \in FU, su \in SU, g \in BOOLEAN} : d.su = "plc" => d.g}
                       \cup {Dc("func", "", "init", "", "", u, "", FALSE, <<>>) : u \in FU}
-    [] c = "meth"  -> {Dc("meth", "", m, r, rk, u, su, FALSE, <<>>) : m \in {"M", "N"}, r \in Names, rk \in {"val", "ptr", "gen"}, u \in FU \cap {"", "pl"}, su \in SU \ {"plc"}}
+    [] c = "meth"  -> {Dc("meth", "", m, r, rk, u, su, FALSE, <<>>) : m \in MethNames, r \in Names, rk \in {"val", "ptr", "gen"}, u \in FU \cap {"", "pl"}, su \in SU \ {"plc"}}
     [] c = "lnk"   -> {Dc("lnk", "", n, "", rk, "", su, FALSE, <<>>) : n \in Names, rk \in {"doc", "float"}, su \in SU \cap {"", "pl", "us"}}
     [] c = "type1" -> {Gen("type", <<s>>) : s \in TSpecs}
     [] c = "type2" -> {Gen("type", <<x[1], x[2]>>) : x \in {y \in TSpecs \X TSpecs : Disjoint(y[1], y[2])}}
@@ -78,7 +80,7 @@ IsIota(dc) == dc.specs # <<>> /\ dc.specs[1].f = "iota"
 Variants(dc) ==
   IF IsFn(dc)
   THEN {[dc EXCEPT !.d = d, !.u = (IF d = "sig" THEN "" ELSE dc.u)]     \* an override-signature marker has no body
-        : d \in (IF dc.n = "init" THEN {""} ELSE IF dc.k = "lnk" THEN {"", "purge"} ELSE {"", "keep", "purge", "sig"})}
+        : d \in (IF dc.n = "init" /\ dc.k = "func" THEN {""} ELSE IF dc.k = "lnk" THEN {"", "purge"} ELSE {"", "keep", "purge", "sig"})}
   ELSE {dc, [dc EXCEPT !.d = "purge"]}
        \cup (IF IsIota(dc) THEN {} ELSE
              {[dc EXCEPT !.specs = [j \in DOMAIN dc.specs |-> IF j \in S THEN [dc.specs[j] EXCEPT !.d = "purge"] ELSE dc.specs[j]]]
@@ -92,7 +94,7 @@ OA == [c \in Range(ClassNames) |-> SetToSeq(OClass(c))]
 ClassOf(x) == ClassNames[(x % Len(ClassNames)) + 1]
 \* give function declaration dc the signature use su where that is well-formed
 WithSu(dc, su) ==
-  IF ~IsFn(dc) \/ dc.n = "init" \/ su \notin SigUses THEN dc
+  IF ~IsFn(dc) \/ (dc.n = "init" /\ dc.k = "func") \/ su \notin SigUses THEN dc
   ELSE IF dc.k = "lnk" /\ su \notin {"", "pl", "us"} THEN dc
   ELSE IF su = "plc" /\ ~dc.g THEN [dc EXCEPT !.su = "pl"]
   ELSE [dc EXCEPT !.su = su]
